@@ -87,4 +87,67 @@ def transpose128 (s : Regs α) : Regs α :=
   let s := stage (pswap 32 (maskN 5)) 16 s
   stage pswap64 32 s                            -- phase 6
 
+
+
+/-! ### The outer function `transpose_bitmatrix` of `avx2.rs`
+
+    The matrix is cut into 128×128 squares. Squares of one row block are loaded (up to four at a time — how many depends on the ADDRESS of
+    the input slice relative to a 64-byte cache line, so the grouping is a parameter `choose` here), transposed by the kernel and stored at
+    the transposed block position; a last, partial column block (`cols % 128 ≠ 0`) is zero-padded to a square (`handle_rest_cols`).
+    Both store paths of the Rust code (`out_stride == 16`: one contiguous copy; otherwise row by row) write row `k` of block `b` of the
+    group at `output_offset + (b·128 + k)·out_stride`; the model has the one formula. Slice accesses out of range would panic; the model
+    ignores them (`getD`, `setIfInBounds`) and `Outer.writes_in_bounds` and `Outer.loads_in_bounds` show that none occurs. -/
+namespace Outer
+
+def byteBit (x : UInt8) (t : Nat) : Bool := (x.toNat >>> t) % 2 == 1
+
+/-- the 64 registers after the loading loop: row `k` of the square is the 16 bytes `input[off + k·in_stride + 16·block ..]` (only the
+    first `nbytes` of them for the partial block, the rest of the row stays zero) -/
+def loadSquare (input : Array UInt8) (inStride off block nbytes : Nat) : Regs Bool := fun r q =>
+  let k := 2 * r + q / 128
+  let c := q % 128
+  if c / 8 < nbytes then byteBit (input.getD (off + k * inStride + 16 * block + c / 8) 0) (c % 8) else false
+
+/-- byte `b` of row `k` of the register file viewed as bytes (`must_cast_slice`) -/
+def rowByte (s : Regs Bool) (k b : Nat) : UInt8 :=
+  (List.range 8).foldl (fun (acc : UInt8) t => if s (k / 2) (k % 2 * 128 + 8 * b + t) then acc ||| ((1 : UInt8) <<< UInt8.ofNat t) else acc) 0
+
+/-- store rows `0 .. nrows-1` of a transposed square, 16 bytes each, `outStride` apart -/
+def storeSquare (o : Array UInt8) (s : Regs Bool) (outStride off nrows : Nat) : Array UInt8 :=
+  (List.range nrows).foldl (fun o k => (List.range 16).foldl (fun o b => o.setIfInBounds (off + k * outStride + b) (rowByte s k b)) o) o
+
+/-- one iteration of the `while j < c_main` loop: `g` squares starting at column block `j` -/
+def group (input : Array UInt8) (inStride outStride i j g : Nat) (o : Array UInt8) : Array UInt8 :=
+  (List.range g).foldl (fun o block =>
+    storeSquare o (transpose128 (loadSquare input inStride (i * 128 * inStride + j * 16) block 16)) outStride
+      (j * 128 * outStride + i * 16 + block * 128 * outStride) 128) o
+
+/-- the `while` loop over the full column blocks of row block `i`; `choose i j` is `blocks_in_cache_line` (any value; `0` means 4) -/
+def mainLoop (input : Array UInt8) (inStride outStride cMain i : Nat) (choose : Nat → Nat → Nat) : Nat → Nat → Array UInt8 → Array UInt8
+  | 0, _, o => o
+  | fuel + 1, j, o =>
+    if j < cMain then
+      let g := min (if choose i j = 0 then 4 else choose i j) (cMain - j)
+      mainLoop input inStride outStride cMain i choose fuel (j + g) (group input inStride outStride i j g o)
+    else o
+
+/-- `handle_rest_cols` -/
+def restCols (input : Array UInt8) (inStride outStride cRest i j : Nat) (o : Array UInt8) : Array UInt8 :=
+  storeSquare o (transpose128 (loadSquare input inStride (i * 128 * inStride + j * 16) 0 (cRest / 8))) outStride (j * 128 * outStride + i * 16) cRest
+
+/-- `avx2::transpose_bitmatrix(input, output, rows)` -/
+def transposeInto (input : Array UInt8) (rows : Nat) (choose : Nat → Nat → Nat) (o0 : Array UInt8) : Array UInt8 :=
+  let cols := input.size * 8 / rows
+  let inStride := cols / 8
+  let outStride := rows / 8
+  let cMain := cols / 128
+  let cRest := cols % 128
+  (List.range (rows / 128)).foldl (fun o i =>
+    let o := mainLoop input inStride outStride cMain i choose cMain 0 o
+    if 0 < cRest then restCols input inStride outStride cRest i cMain o else o) o0
+
+def transposeAvx (input : Array UInt8) (rows : Nat) (choose : Nat → Nat → Nat) : Array UInt8 :=
+  transposeInto input rows choose (Array.replicate input.size 0)
+
+end Outer
 end PolytuneModel.Avx
